@@ -1,5 +1,7 @@
 // Engine `msg` (C01; also the C++ side of C08 and the Message-parser part of C02):
 // a register file of Messages driven through the public API.
+// Op `cksum <reg>` -> `ok <decimal>`: Message::CalculateChecksum(false) of the register (content checksum; compared with the
+// model's `checksumMsg`, Wire/Checksum.lean).  The generator emits it after mutations, after every parsed buffer and at case end.
 #include "libvh/vh.h"
 #include "message/Message.h"
 #include "util/ByteBuffer.h"
@@ -172,7 +174,8 @@ struct MsgEngine : public Engine
             {
                case 0: case 1: emit(out, "new " + R + " " + u64s(genBits(r,32))); break;
                case 2: case 3: case 4: emit(out, "copy " + R + " " + u64s(r.below(NREGS))); break;
-               case 5: case 6: case 7: case 8: case 9: case 10: case 11: case 12: emit(out, "flat " + R); break;
+               case 5: case 6: case 7: case 8: case 9: emit(out, "flat " + R); break;
+               case 10: case 11: case 12: emit(out, "cksum " + R); break;
                case 13: case 14: case 15: case 16: emit(out, "dump " + R); break;
                case 17: case 18: case 19: case 20: emit(out, "eq " + R + " " + u64s(r.below(NREGS))); break;
                case 21: case 22: case 23: case 24: case 25: case 26: case 27: case 28: case 29: case 30:
@@ -192,12 +195,13 @@ struct MsgEngine : public Engine
                   std::vector<uint8_t> enc(src.FlattenedSize()); src.FlattenToBytes(enc.data());
                   emit(out, "unflat " + R + " " + mutate(r, enc));
                   emit(out, "dump " + R);
+                  emit(out, "cksum " + R);
                }
                break;
-               default: emit(out, "add " + R + " " + nm + " " + genVal(r, ty)); break;
+               default: emit(out, "add " + R + " " + nm + " " + genVal(r, ty)); if (r.chance(1,6)) emit(out, "cksum " + R); break;
             }
          }
-         for (uint32_t reg=0; reg<2; reg++) {emit(out, "flat " + u64s(reg)); emit(out, "dump " + u64s(reg));}
+         for (uint32_t reg=0; reg<2; reg++) {emit(out, "flat " + u64s(reg)); emit(out, "dump " + u64s(reg)); emit(out, "cksum " + u64s(reg));}
       }
    }
 
@@ -364,6 +368,7 @@ struct MsgEngine : public Engine
          tripOracle(m, NULL);
          return "ok " + u64s(fs) + " " + hexOf(buf);
       }
+      if ((op == "cksum")&&(t.size() == 2)) return "ok " + u64s(m.CalculateChecksum(false));
       if ((op == "tripreg")&&(t.size() == 3)&&(toU64(t[2], b))&&(b < (uint64_t)NREGS)) {tripOracle(m, &regs[b]); return "ok";}
       if ((op == "unflat")&&(t.size() == 3))
       {
